@@ -209,6 +209,110 @@ def foreign_match(ca: CodecAnalyser, mt: "Matcher", ra: ClassAnalysis, pa: Class
     return problems, n_eval
 
 
+def byte_fn(m: Model, mod, expr: ast.expr, sym: str):
+    """Compile a pure integer expression over one PDU byte (written `sym`, e.g. `self.pdu[0]`) into a python function of that
+    byte, for exhaustive evaluation over 0..255.  Returns None when the expression is outside this small language."""
+    def ev(e: ast.expr, b: int):
+        if ast.unparse(e) == sym:
+            return b
+        c = m.try_fold(mod, e)
+        if isinstance(c, int):
+            return int(c)
+        if isinstance(e, ast.BinOp):
+            a, c2 = ev(e.left, b), ev(e.right, b)
+            ops = {ast.Add: lambda x, y: x + y, ast.Sub: lambda x, y: x - y, ast.BitAnd: lambda x, y: x & y, ast.BitOr: lambda x, y: x | y,
+                   ast.BitXor: lambda x, y: x ^ y, ast.Mod: lambda x, y: x % y, ast.LShift: lambda x, y: x << y, ast.RShift: lambda x, y: x >> y}
+            if type(e.op) not in ops:
+                raise NotImplementedError(ast.unparse(e))
+            return ops[type(e.op)](a, c2)
+        if isinstance(e, ast.IfExp) and isinstance(e.test, ast.Compare) and len(e.test.ops) == 1:
+            l, rr = ev(e.test.left, b), ev(e.test.comparators[0], b)
+            t = {ast.Lt: l < rr, ast.LtE: l <= rr, ast.Gt: l > rr, ast.GtE: l >= rr, ast.Eq: l == rr, ast.NotEq: l != rr}.get(type(e.test.ops[0]))
+            if t is None:
+                raise NotImplementedError(ast.unparse(e))
+            return ev(e.body if t else e.orelse, b)
+        raise NotImplementedError(ast.unparse(e))
+    try:
+        ev(expr, 0)
+    except NotImplementedError:
+        return None
+    return lambda b: ev(expr, b)
+
+
+def sid_operand(m: Model, fn: FuncInfo, e: ast.expr, var_cls: dict[str, ClassInfo]):
+    """What a value compared with request.service_id is made of: ('byte', k, f) = f(pdu[k]); ('const', v); None = unknown."""
+    if isinstance(e, ast.Subscript) and ast.unparse(e.value) in ("pdu", "self.pdu"):
+        k = m.try_fold(fn.module, e.slice)
+        return ("byte", k, lambda b: b) if isinstance(k, int) else None
+    if isinstance(e, ast.Attribute) and isinstance(e.value, ast.Name) and e.value.id in var_cls:
+        c = var_cls[e.value.id]
+        for k in m.mro(c):
+            f = k.methods.get(e.attr)
+            if f is None:
+                continue
+            rets = [n.value for n in walk_no_nested(f.node) if isinstance(n, ast.Return) and n.value is not None]
+            if len(rets) != 1:
+                return None
+            if ast.unparse(rets[0]) in ("self.SERVICE_ID", "cls.SERVICE_ID"):
+                v = m.class_kw(c, "service_id", None)
+                return ("const", v)
+            subs = [x for x in ast.walk(rets[0]) if isinstance(x, ast.Subscript) and ast.unparse(x.value) == "self.pdu"]
+            if len(subs) == 1:
+                idx = m.try_fold(f.module, subs[0].slice)
+                bf = byte_fn(m, f.module, rets[0], ast.unparse(subs[0]))
+                if isinstance(idx, int) and bf is not None:
+                    return ("byte", idx, bf)
+            return None
+    return None
+
+
+def rule_r14(m: Model, r: Report) -> None:
+    MUT = {"append", "add", "update", "setdefault", "pop", "clear", "insert", "extend", "remove", "popitem", "discard", "__setitem__", "appendleft"}
+    mods = {SERVICE, HELPERS, "gallia.services.uds.core.utils"}
+    n_fn = 0
+
+    def shared_base(f: FuncInfo, e: ast.expr) -> str | None:
+        """Name of the class / module level object an lvalue or receiver is rooted in (None: instance or local state)."""
+        inner = e
+        while isinstance(inner, (ast.Attribute, ast.Subscript)):
+            if isinstance(inner, ast.Attribute) and inner.attr == "__class__":
+                return ast.unparse(inner)
+            inner = inner.value
+        if isinstance(inner, ast.Call) and ast.unparse(inner.func) == "type":
+            return ast.unparse(inner)
+        if isinstance(inner, ast.Name):
+            if inner.id == "cls" and f.cls is not None and e is not inner:
+                return "cls"
+            if inner.id in m.local_names(f) or inner.id in f.params():
+                return None
+            if inner.id in f.module.classes or inner.id in f.module.assigns or inner.id in f.module.imports:
+                return inner.id
+        return None
+
+    for f in m.functions():
+        if f.module.name not in mods or f.name == "__init_subclass__":
+            continue
+        n_fn += 1
+        writes = []
+        for n in ast.walk(f.node):
+            tg = n.targets if isinstance(n, ast.Assign) else [n.target] if isinstance(n, (ast.AugAssign, ast.AnnAssign)) else []
+            for t in tg:
+                for x in (t.elts if isinstance(t, ast.Tuple) else [t]):
+                    if isinstance(x, (ast.Attribute, ast.Subscript)) and shared_base(f, x) is not None:
+                        writes.append((n.lineno, ast.unparse(x)))
+            if isinstance(n, ast.Global):
+                writes.append((n.lineno, "global " + ", ".join(n.names)))
+            if isinstance(n, ast.Call) and isinstance(n.func, ast.Attribute) and n.func.attr in MUT and isinstance(n.func.value, (ast.Attribute, ast.Subscript, ast.Name)) \
+                    and shared_base(f, n.func.value) is not None:
+                writes.append((n.lineno, ast.unparse(n)[:60]))
+        r.check(not writes, "R14", f"{f.qualname}#stateless",
+                f"writes state shared by all PDUs of the process ({'; '.join(w for _, w in writes)}): the result of parsing / matching a later "
+                "PDU then depends on which PDUs were seen before, not only on the (request, reply) pair",
+                loc=f"{f.module.relpath}:{writes[0][0]}" if writes else f.loc)
+    if n_fn < 100:
+        raise AnalysisError(f"only {n_fn} codec functions inspected")
+
+
 def run(m: Model, r: Report, tier: str) -> None:
     rule_r7(m, r)
     reg = Registry(m)
@@ -227,6 +331,8 @@ def run(m: Model, r: Report, tier: str) -> None:
     r.rule("R12", "evaluating matches() abstractly against a request with unrelated field values: every accepting path has required the "
                   "equality of each echo atom (no `or`, inverted comparison or early accept)", floor=30)
     r.rule("R13", "matches() predicates are conjunctions; request/response comparisons are equalities where they accept and inequalities where they refuse", floor=20)
+    r.rule("R14", "parsing and matching are functions of the (request, reply) pair: no codec / matching function writes class- or module-level state", floor=1)
+    rule_r14(m, r)
     r.rule("R10", "the response parser admits every ISO-minimal genuine reply (length envelope, no index beyond the checked length)", floor=34)
 
     UDSRequest = reg.UDSRequest
@@ -421,7 +527,7 @@ def run(m: Model, r: Report, tier: str) -> None:
                     other = next(s for s in sides if ast.unparse(s) != "request.service_id")
                     if isinstance(other, ast.Subscript) and ast.unparse(other.value) in ("pdu", "self.pdu"):
                         idx.append(m.try_fold(fn.module, other.slice, default="?"))
-        if not idx:
+        if not idx and qual.endswith("RawNegativeResponse.matches"):
             raise AnalysisError(f"{qual}: comparison of a PDU byte with request.service_id not found")
         r.check(all(i == 1 for i in idx), "R4", qual,
                 f"compares pdu[{idx}] with request.service_id; the request service id of a negative response is byte 1", loc=fn.loc)
@@ -442,6 +548,67 @@ def run(m: Model, r: Report, tier: str) -> None:
                         r.check(okg, "R4", qual + "#length-guard",
                                 f"pdu[1] is compared under guards {guards}: a 2-byte negative response naming another service is not "
                                 "recognised as foreign, or a 1-byte one raises IndexError", loc=fn.loc)
+
+    # error path of parse_pdu: which wire byte decides "foreign reply" (mismatch) vs "malformed reply of this service", per branch
+    pp_ = m.require_function(f"{HELPERS}.parse_pdu")
+    hs_ = [h for t in walk_no_nested(pp_.node) if isinstance(t, ast.Try) for h in t.handlers
+           if any(isinstance(x, ast.Raise) and "MalformedResponse" in ast.unparse(x) for x in ast.walk(h))]
+    if len(hs_) != 1:
+        raise AnalysisError(f"{pp_.qualname}: handler raising MalformedResponse not found")
+    hb = hs_[0].body
+    split = [st for st in hb if isinstance(st, ast.If) and "NegativeResponse" in ast.unparse(st.test) and "pdu[0]" in ast.unparse(st.test)]
+    if len(split) != 1 or not isinstance(split[0].test, ast.Compare) or not isinstance(split[0].test.ops[0], (ast.Eq, ast.NotEq)):
+        raise AnalysisError(f"{pp_.qualname}: negative/positive split of the error path not found")
+    neg_body, pos_body = (split[0].body, split[0].orelse) if isinstance(split[0].test.ops[0], ast.Eq) else (split[0].orelse, split[0].body)
+    shared = hb[hb.index(split[0]) + 1:]
+    offs = [n.value for n in ast.walk(m.require_function(f"{SERVICE}.UDSResponse.__init_subclass__").node)
+            if isinstance(n, ast.Assign) and ast.unparse(n.targets[0]) == "cls.RESPONSE_SERVICE_ID"]
+    off_c = None
+    for o in offs:
+        for x in ast.walk(o):
+            if isinstance(x, ast.BinOp) and isinstance(x.op, ast.Add) and "service_id" in ast.unparse(x.left):
+                off_c = m.try_fold(pp_.module, x.right)
+    if not isinstance(off_c, int):
+        raise AnalysisError("UDSResponse.__init_subclass__: RESPONSE_SERVICE_ID = service_id + <const> not found")
+    for label, body, want_idx, want_fn in (("negative", neg_body, 1, lambda b: b), ("positive", pos_body, 0, lambda b: b - off_c)):
+        var_cls = {}
+        for st in body:
+            if isinstance(st, ast.Assign) and isinstance(st.targets[0], ast.Name) and isinstance(st.value, ast.Call):
+                c = m.resolve_expr(pp_.module, st.value.func, None)
+                if isinstance(c, ClassInfo):
+                    var_cls[st.targets[0].id] = c
+        found, bad = 0, []
+        for st in list(body) + list(shared):
+            for n in ast.walk(st):
+                if isinstance(n, ast.If) and any(isinstance(x, ast.Raise) and "RequestResponseMismatch" in ast.unparse(x) for x in n.body):
+                    for cmp in [x for x in ast.walk(n.test) if isinstance(x, ast.Compare) and len(x.ops) == 1 and isinstance(x.ops[0], ast.NotEq)]:
+                        sides = [cmp.left, cmp.comparators[0]]
+                        if not any(ast.unparse(x) == "request.service_id" for x in sides):
+                            continue
+                        other = next(x for x in sides if ast.unparse(x) != "request.service_id")
+                        org = sid_operand(m, pp_, other, var_cls)
+                        if org is None:
+                            raise AnalysisError(f"{pp_.qualname}: cannot resolve what `{ast.unparse(other)}` is made of on the {label} error path")
+                        found += 1
+                        if org[0] == "const":
+                            bad.append(f"`{ast.unparse(other)}` is the constant {org[1]:#x} for {', '.join(c.name for c in var_cls.values())}")
+                        elif org[1] != want_idx or any(org[2](b) != want_fn(b) for b in range(256)):
+                            ex = next((b for b in range(256) if org[2](b) != want_fn(b)), None)
+                            bad.append(f"`{ast.unparse(other)}` is computed from pdu[{org[1]}]" + (f" and differs from the request service id for first byte {ex:#04x}" if ex is not None and org[1] == want_idx else ""))
+        r.check(found >= 1 and not bad, "R4", f"{pp_.qualname}#error-path:{label}",
+                (f"an undecodable {label} reply is classified by: {bad}; " if bad else f"no service-id comparison on the {label} error path; ") +
+                f"the request service id of a {label} reply is " + ("byte 1" if label == "negative" else f"byte 0 - {off_c:#x}") +
+                ": foreign replies must be mismatches, replies naming the request's service malformed", loc=pp_.loc)
+
+    # RawPositiveResponse.service_id: exhaustive over the first byte
+    rps = m.require_class(f"{SERVICE}.RawPositiveResponse")
+    org = sid_operand(m, pp_, ast.parse("x.service_id", mode="eval").body, {"x": rps})
+    if org is None or org[0] != "byte":
+        raise AnalysisError(f"{rps.qualname}.service_id: not a function of one PDU byte")
+    exs = [b for b in range(256) if org[2](b) + off_c != b]
+    r.check(org[1] == 0 and not exs, "R5", f"{rps.qualname}.service_id#inverse-of-response-sid",
+            f"service_id(first byte) + {off_c:#x} != first byte for {len(exs)} byte values (e.g. {exs[0]:#04x} -> {org[2](exs[0]):#04x}): such a frame "
+            "(e.g. the request echoed back) is taken for the positive response of that service" if exs else "", loc=rps.loc)
 
     rn = m.require_function(f"{SERVICE}.RawNegativeResponse.matches")
     rets = [n.value for n in walk_no_nested(rn.node) if isinstance(n, ast.Return)]
